@@ -25,6 +25,7 @@ class Feats:
         self.casei_alpha = False  # mixed-case literals
         self.lazy = True
         self.multibyte = True
+        self.meta_lits = False    # escaped metacharacters as literals
         self.__dict__.update(kw)
 
 
@@ -64,6 +65,8 @@ def atom(r, st, f):
         opts += [("lit", "é")]
     if f.casei_alpha:
         opts += [("lit", "A"), ("lit", "B"), ("lit", "a"), ("lit", "b")]
+    if f.meta_lits:
+        opts += [("lit", c) for c in "$.|*+?()[{^\\#"]
     if f.classes:
         opts += [("cls", "[ab]"), ("cls", "[^a]"), ("cls", "\\w"), ("cls", "[b-c]"), ("cls", "\\d")]
         if f.casei_alpha:
